@@ -2,6 +2,8 @@ import Ww.Driver.Proto
 import Ww.Driver.Meta
 import Ww.Driver.Sys
 import Ww.Driver.C12
+import Ww.Driver.C15
+import Ww.Driver.C16
 open Ww.Driver
 
 def dispatch (l : Line) : List Verdict :=
@@ -15,6 +17,11 @@ def dispatch (l : Line) : List Verdict :=
   | "glob" => handleGlob l
   | "needslogin" => handleNeedsLogin l
   | "alog" => handleALog l
+  | "route" => handleRoute l
+  | "guard" => handleGuard l
+  | "errpage" => handleErrPage l
+  | "cors" => handleCors l
+  | "proxycmds" => handleProxyCmds l
   | k => [Verdict.bad s!"unknown kind {k}"]
 
 partial def loop (h : IO.FS.Stream) (out : IO.FS.Stream) (i : Nat) : IO Unit := do
